@@ -12,7 +12,7 @@ import z3
 
 from pyvc.prop import Unit, Bounded
 from pyvc.values import strval, SV, STR, INT, BOOL, FRAC, OINT, TNT, TSeq, TEnum, term, is_sym, fresh, fresh_term, coerce
-from pyvc.execu import HObj, NTVal, LoopSpec, yield_slot, seq_of_items, PyRaise, SymIter, Unsupported
+from pyvc.execu import loop_targets, HObj, NTVal, LoopSpec, yield_slot, seq_of_items, PyRaise, SymIter, Unsupported
 from pyvc import heaps as H, models as M
 
 LEVEL = "other"
@@ -123,14 +123,14 @@ class UngroupItem(Unit):
         def drain_inv(ex_, fr, k, vals):
             e = fr.loop_entry[(Q, 2)]
             h0, y0 = e["pending_tails"].t, e["yielded"].t
-            pos = as_note_pos(fr.locals["note"])
+            pos = as_note_pos(fr.locals[loop_targets(fr.fi, 1)[0]])
             ex_.ghost["drain"] = (h0, y0, pos, k)
             return [("yielded", vals["yielded"].t == z3.Concat(y0, DRAINF()(h0, k))), ("pending", vals["pending_tails"].t == POPK()(h0, k)),
                     ("only-preceding-tails", ALLLT()(h0, pos, k))]
 
         def drain_using(ex_, fr, k, vals):
             e = fr.loop_entry[(Q, 2)]
-            return drain_unfold(e["pending_tails"].t, k, as_note_pos(fr.locals["note"]))
+            return drain_unfold(e["pending_tails"].t, k, as_note_pos(fr.locals[loop_targets(fr.fi, 1)[0]]))
 
         def final_inv(ex_, fr, k, vals):
             e = fr.loop_entry[(Q, 3)]
